@@ -20,6 +20,19 @@ def _resolve_wf(r, target):
             if not snap['wf'][wid]['task_execution_id']:
                 return wid, snap, labels
         return None, snap, labels
+    if target == 'paused':
+        # topmost execution that is PAUSED
+        cands = []
+        for wid, w in snap['wf'].items():
+            if w['state'] != 'PAUSED':
+                continue
+            pt = snap['task'].get(w['task_execution_id'])
+            pw = snap['wf'].get(pt['workflow_execution_id']) if pt else None
+            if pw is None or pw['state'] != 'PAUSED':
+                cands.append((labels.wf.get(wid, wid), wid))
+        if cands:
+            return sorted(cands)[0][1], snap, labels
+        return None, snap, labels
     if isinstance(target, str) and target.startswith('sub:'):
         k = int(target[4:])
         subs = sorted((lab, wid) for wid, lab in labels.wf.items()
